@@ -99,15 +99,18 @@ func seqs(alpha []Op, n int) [][]Op {
 // op a stop + restart under EVERY enumeration order (session mode: a restart does not change what the
 // next restart sees, so the block of all permutations after each op checks every stop point x order);
 // variant per position: the store write of that op fails.
-func genExhaustive(lease bool, g geoT, univ, depth int, origin string) []Case {
+func genExhaustive(lease bool, g geoT, univ, depth int, origin string, allFail bool) []Case {
 	var alpha []Op
 	for h := 0; h < univ; h++ {
 		alpha = append(alpha, Op{K: "alloc", H: h}, Op{K: "rel", H: h})
 	}
 	ps := perms(univ)
 	var out []Case
-	for _, s := range seqs(alpha, depth) {
+	for si, s := range seqs(alpha, depth) {
 		for failAt := -1; failAt < depth; failAt++ {
+			if !allFail && failAt >= 0 && failAt != si%depth { // quick tier: one (rotating) failure position per sequence
+				continue
+			}
 			c := distCase(g, lease, univ, origin)
 			c.Sync = failAt%2 == 0
 			for i, o := range s {
@@ -186,13 +189,13 @@ func genRandomDist(r *vh.Rng, lease bool, n, maxOps int, guarded bool, origin st
 					continue
 				}
 				c.Ops = append(c.Ops, Op{K: "rputf", H: h, Idx: rr.Intn(8), Ep: uint64(rr.Intn(4))})
-			case x < 91:
+			case x < 90:
 				c.Ops = append(c.Ops, Op{K: "rputown", H: h, Ep: uint64(2 + rr.Intn(3))})
-			case x < 95:
+			case x < 92:
 				c.Ops = append(c.Ops, Op{K: "rdel", H: h})
 			default:
 				if !guarded {
-					if rr.Bool() {
+					if rr.Chance(2, 3) {
 						c.Ops = append(c.Ops, Op{K: "echo", Idx: rr.Intn(6)})
 					} else {
 						a := g.unitAddrs[rr.Intn(len(g.unitAddrs))]
@@ -210,6 +213,8 @@ func genRandomDist(r *vh.Rng, lease bool, n, maxOps int, guarded bool, origin st
 		}
 		if guarded {
 			c.Sync = true
+		} else if rr.Chance(2, 3) {
+			c.Sync = false
 		}
 		out = append(out, c)
 	}
@@ -228,13 +233,13 @@ func genLeaseOrdered(r *vh.Rng, n int) []Case {
 		c.Sync = rr.Bool()
 		order := randPerm(rr, univ)
 		k := 1 + rr.Intn(univ)
-		for _, h := range order[:k] {
+		for i, h := range order[:k] {
 			c.Ops = append(c.Ops, Op{K: "alloc", H: h, Fail: false})
 			if rr.Chance(1, 3) {
 				c.Ops = append(c.Ops, Op{K: "renew", H: h})
 			}
-			if rr.Chance(1, 3) {
-				c.Ops = append(c.Ops, Op{K: "alloc", H: order[rr.Intn(k)], Fail: rr.Bool()})
+			if rr.Chance(1, 3) { // re-Allocate of a subscriber that already holds a lease, Put may fail
+				c.Ops = append(c.Ops, Op{K: "alloc", H: order[rr.Intn(i+1)], Fail: rr.Bool()})
 			}
 		}
 		c.Ops = append(c.Ops, Op{K: "restart", Ord: order})
@@ -381,24 +386,24 @@ func genStoreRT(r *vh.Rng, n, maxOps int, canonical bool) []Case {
 }
 
 func generate(r *vh.Rng, thorough bool) []stream {
-	exDepth, nr, maxOps := 3, 120, 16
+	exDepth, nr, maxOps := 3, 90, 14
 	if thorough {
 		exDepth, nr, maxOps = 4, 1800, 30
 	}
 	ex := map[string]interface{}{"exhaustive": true,
-		"space": fmt.Sprintf("all allocate/release sequences of length %d over 3 subscribers x (no failure | store failure at each position) x restart after every op under all 6 enumeration orders (session) / one rotating order (lease)", exDepth)}
+		"space": fmt.Sprintf("all allocate/release sequences of length %d over 3 subscribers x (no failure | store failure at each position (thorough) / at one rotating position (quick)) x restart after every op under all 6 enumeration orders (session) / one rotating order (lease)", exDepth)}
 	var out []stream
-	out = append(out, stream{"dist_session_exh", "dist", genExhaustive(false, sessionGeos[0], 3, exDepth, "exhaustive"), ex})
+	out = append(out, stream{"dist_session_exh", "dist", genExhaustive(false, sessionGeos[0], 3, exDepth, "exhaustive", thorough), ex})
 	out = append(out, stream{"dist_session_guarded", "dist", genRandomDist(r.Fork(), false, nr, maxOps, true, "guarded"), nil})
 	out = append(out, stream{"dist_lease_guarded", "dist", append(genRandomDist(r.Fork(), true, nr/2, maxOps, true, "guarded"), genLeaseOrdered(r.Fork(), nr/2)...), nil})
 	out = append(out, stream{"dist_session_defect", "dist", genRandomDist(r.Fork(), false, nr/2, maxOps, false, "defect"), nil})
-	out = append(out, stream{"dist_lease_defect", "dist", append(genExhaustive(true, leaseGeos[0], 3, exDepth-1, "exhaustive-lease"), genRandomDist(r.Fork(), true, nr/2, maxOps, false, "defect")...), nil})
+	out = append(out, stream{"dist_lease_defect", "dist", append(genExhaustive(true, leaseGeos[0], 3, exDepth-1, "exhaustive-lease", thorough), genRandomDist(r.Fork(), true, nr/2, maxOps, false, "defect")...), nil})
 	bex := 2
 	if thorough {
 		bex = 3
 	}
 	out = append(out, stream{"bitmap", "bitmap", append(genBitmapExh(bex), genBitmapRT(r.Fork(), nr, maxOps)...), map[string]interface{}{"exhaustive_part": fmt.Sprintf("all sequences of length %d over 9 mutating ops on a 4-unit pool, each followed by query battery + round trip", bex)}})
 	out = append(out, stream{"epoch", "epoch", genEpochRT(r.Fork(), nr, maxOps), nil})
-	out = append(out, stream{"store", "store", append(genStoreRT(r.Fork(), nr/2, maxOps, true), genStoreRT(r.Fork(), nr/2, maxOps, false)...), nil})
+	out = append(out, stream{"store", "store", append(genStoreRT(r.Fork(), nr/3, maxOps*2/3, true), genStoreRT(r.Fork(), nr/3, maxOps*2/3, false)...), nil})
 	return out
 }
